@@ -42,7 +42,8 @@ def rand_cfg(rng, kinds=("DE", "DE2", "NM", "PW")):
                 cost=rng.choice(["sphere", "abs", "plateau", "vector", "infwall"]),
                 cons=cons, inplace=rng.random() < 0.5, pen=rng.choice(["none", "abs", "quad"]), box=box,
                 tight=tight, clip=clip, cons_at=rng.choice([0, 0, 0, 1, 2, 3]), box_at=rng.choice([0, 0, 0, 1, 2, 4]),
-                pen_at=rng.choice([0, 0, 1, 2, 3]), via=rng.choice(["set", "set", "step"]), steps=rng.choice([3, 5, 7]), x0out=rng.random() < 0.4, maxgen=8,
+                pen_at=rng.choice([0, 0, 1, 2, 3]), via=rng.choice(["set", "set", "step"]),
+                box_off_at=rng.choice([None, None, None, None, 1, 2, 3]), box_off_how=rng.choice(["off", "default"]), steps=rng.choice([3, 5, 7]), x0out=rng.random() < 0.4, maxgen=8,
                 strategy=rng.choice([None, "Rand1Bin", "Best1Exp", "RandToBest1Bin", "Rand2Exp"]))
 
 
